@@ -242,6 +242,25 @@ theorem subroute_does_not_catch_later_failures (rs es : List Route) (hasErrs : B
 
 example : runRoutes [.mk 0 [] [.pass 1] false] reachK wReq [] = .reached wReq [⟨1, 1, none, none⟩] := by decide
 
+/-- (5): **a subroute's decision depends on its own invocation only**: a nested subroute that let
+    the request continue — whatever it contains, with or without error routes of its own — leaves
+    no trace in the decision of the enclosing subroute: a LATER handler of the enclosing subroute's
+    own routes that fails is handled by the enclosing subroute's error routes. -/
+theorem subroute_decision_is_its_own (rs' es' es : List Route) (he' : Bool) (id st : Nat) (k : K)
+    (r r' : Req) (t t' : Trace) (h : specRoutes rs' r t = .cont r' t') :
+    runHandler (.sub [.mk 0 [] [.sub rs' he' es', .fail id st] false] true es) k r t
+      = runRoutes es k (withError st r') (t' ++ [ev id r']) := by
+  have hin : runRoutes rs' reachK r t = .reached r' t' := by
+    rw [rs_ok rs' reachK r t, h]; rfl
+  have : runRoutes [.mk 0 [] [.sub rs' he' es', .fail id st] false] reachK r t
+      = .err (t' ++ [ev id r']) st r' := by
+    simp [runRoutes, runRoute, anyMatch, groupDone, markGroup, runHandlers, runHandler, hin]
+  simp [runHandler, this]
+
+example : serve [.mk 0 [] [.sub [.mk 0 [] [.sub [.mk 0 [] [.pass 1] false] true [.mk 0 [] [.pass 8] false], .fail 2 404] false]
+      true [.mk 0 [] [.pass 9] false]] false] false [] wReq
+    = ⟨[⟨1, 1, none, none⟩, ⟨2, 1, none, none⟩, ⟨9, 1, some 404, some 404⟩], none⟩ := by decide
+
 example : runRoutes [.mk 0 [] [.fail 2 500] false] reachK wReq [] = .err [⟨2, 1, none, none⟩] 500 wReq := by decide
 
 /-- **a matcher error diverts**: the route's handlers do not run, nothing after it runs; the error
